@@ -66,6 +66,7 @@ class Ctx:
         self.depth = 0
         self.count = 0
         self.enabled = True
+        self.read_boundaries = False   # opt-in: files opened for READING come back wrapped (ReadProxy)
 
     def under(self, p):
         try:
@@ -212,6 +213,71 @@ class FileProxy:
                 hook(self._path)
 
 
+class ReadProxy:
+    """Wrapper around a file opened for reading (only when ctx.read_boundaries): every read is a
+    boundary BEFORE the OS call ("f.read") and again when it has returned ("f.read.ret") - the point at
+    which CPython re-acquires the GIL, so another thread may well run between the read and whatever
+    the caller does with the bytes."""
+
+    def __init__(self, f, ctx, path):
+        object.__setattr__(self, "_f", f)
+        object.__setattr__(self, "_ctx", ctx)
+        object.__setattr__(self, "_path", path)
+
+    def __getattr__(self, n):
+        return getattr(self._f, n)
+
+    def __setattr__(self, n, v):
+        setattr(self._f, n, v)
+
+    def _fire(self, name):
+        ctx = self._ctx
+        if getattr(_tls, "ctx", None) is ctx and getattr(_tls, "depth", 0) == 0 and ctx.enabled:
+            ctx.fire(Event(name, [self._path]))
+
+    def _around(self, fn, *a):
+        self._fire("f.read")
+        try:
+            return fn(*a)
+        finally:
+            self._fire("f.read.ret")
+
+    def read(self, *a):
+        return self._around(self._f.read, *a)
+
+    def read1(self, *a):
+        return self._around(self._f.read1, *a)
+
+    def readinto(self, b):
+        return self._around(self._f.readinto, b)
+
+    def readinto1(self, b):
+        return self._around(self._f.readinto1, b)
+
+    def readline(self, *a):
+        return self._around(self._f.readline, *a)
+
+    def readlines(self, *a):
+        return self._around(self._f.readlines, *a)
+
+    def __iter__(self):
+        return self
+
+    def __next__(self):
+        line = self._around(self._f.readline)
+        if not line:
+            raise StopIteration
+        return line
+
+    def __enter__(self):
+        self._f.__enter__()
+        return self
+
+    def __exit__(self, *a):
+        self._f.close()
+        return False
+
+
 def _open_wrap(real):
     def w(file, mode="r", *a, **k):
         ctx = current()
@@ -256,6 +322,8 @@ def _open_wrap(real):
             except (OSError, ValueError):
                 q = p
             return FileProxy(f, ctx, q)
+        if ctx.read_boundaries:
+            return ReadProxy(f, ctx, p)
         return f
     w.__wrapped__ = real
     return w
